@@ -101,7 +101,7 @@ func (o *c02Oracle) after(ch *chain, ci *callInfo) *Violation {
 	return nil
 }
 
-var c02Profile = &histProfile{Scripts: true, Batches: true, OwnerBias: 3, HugeBalances: true, MaxBlocks: 24, Evidence: 4, Missed: 2, Restart: 10,
+var c02Profile = &histProfile{ScriptGov: []string{"raisemin", "lowermin", "lowermax"}, ScriptTemplates: slashStateTemplates, Scripts: true, Batches: true, OwnerBias: 3, HugeBalances: true, MaxBlocks: 24, Evidence: 4, Missed: 2, Restart: 10,
 	TxKinds: []string{"send", "send", "send", "stake", "stake", "unstake", "unjail", "award", "award", "burn", "dao", "dao", "param", "raw"},
 	Modes:   []string{"", "", "", "", "", "", "check", "recheck", "simulate"}, WrongSigner: 12}
 
